@@ -709,19 +709,27 @@ def replay_known(ctx):
     with db_session:
         E(id=1, name='Ann')
     hits = []
+    def run_q(label, mk):
+        try:
+            return mk()[:][:]
+        except Exception as e:
+            ctx.violation("a well-typed string slice query raises instead of computing Python's result (real SQLite)",
+                          {'query': 'select(%s for e in E)' % label, 'name': 'Ann'}, observed='%s: %s' % (type(e).__name__, str(e)[:160]), expected='a list of strings',
+                          key='sqlite:raises:%s:%s' % (label, type(e).__name__))
+            return None
     with db_session:
         y = -1; x = 0
-        for label, q in [('e.name[:-1]', select(e.name[:-1] for e in E)), ('e.name[0:-1]', select(e.name[0:-1] for e in E)),
-                         ('e.name[x:y] with x=0, y=-1', select(e.name[x:y] for e in E)), ('e.name[:y] with y=-1', select(e.name[:y] for e in E))]:
-            got = q[:][:]
+        for label, mk in [('e.name[:-1]', lambda: select(e.name[:-1] for e in E)), ('e.name[0:-1]', lambda: select(e.name[0:-1] for e in E)),
+                          ('e.name[x:y] with x=0, y=-1', lambda: select(e.name[x:y] for e in E)), ('e.name[:y] with y=-1', lambda: select(e.name[:y] for e in E))]:
+            got = run_q(label, mk)
             ctx.case(['known-finding-replay', label], kind='oracle:sqlite:known-finding-replay')
-            if got != ['An']: hits.append((label, got))
+            if got is not None and got != ['An']: hits.append((label, got))
         # controls: the same bounds that do not hit the sentinel are right
-        for label, q, exp in [('e.name[1:-1]', select(e.name[1:-1] for e in E), ['n']), ('e.name[:-2]', select(e.name[:-2] for e in E), ['A']),
-                              ('e.name[:]', select(e.name[:] for e in E), ['Ann']), ('e.name[0:]', select(e.name[0:] for e in E), ['Ann'])]:
-            got = q[:][:]
+        for label, mk, exp in [('e.name[1:-1]', lambda: select(e.name[1:-1] for e in E), ['n']), ('e.name[:-2]', lambda: select(e.name[:-2] for e in E), ['A']),
+                               ('e.name[:]', lambda: select(e.name[:] for e in E), ['Ann']), ('e.name[0:]', lambda: select(e.name[0:] for e in E), ['Ann'])]:
+            got = run_q(label, mk)
             ctx.case(['known-finding-control', label], kind='oracle:sqlite:known-finding-control')
-            if got != exp:
+            if got is not None and got != exp:
                 ctx.violation('string slice differs from Python', {'query': 'select(%s for e in E)' % label, 'name': 'Ann'}, observed=got, expected=exp,
                               key='sqlite:control:' + label)
     db.disconnect()
